@@ -42,6 +42,19 @@ def mkbuf(X, cells):
     return bytearray(cells)
 
 
+def buffer_untouched(buf, cells0):
+    """decoding reads the data-in buffer: afterwards it is still what the device left (same length, same bytes)"""
+    now = list(buf)
+    same_len = len(now) == len(cells0)
+    yield "C04", "decoder-leaves-the-data-in-buffer-as-the-device-left-it:length (%d bytes before, %d after)" % (len(cells0), len(now)) if not same_len else "decoder-leaves-the-data-in-buffer-as-the-device-left-it:length", same_len
+    if same_len:
+        eq = True
+        for x, y in zip(now, cells0):
+            if x is not y:
+                eq = V.band(eq, x == y)
+        yield "C04", "decoder-leaves-the-data-in-buffer-as-the-device-left-it:bytes", eq
+
+
 def lookup(result, dotted):
     cur = result
     for part in dotted.split("."):
@@ -138,13 +151,15 @@ class FixedDecode(Unit):
         kw = dict(self.kwargs)
         if "request" in case:
             kw[case["request"][0]] = case["request"][1]
-        return X.call(self.parser(), mkbuf(X, cells), **kw)
+        self.buf, self.cells0 = mkbuf(X, cells), list(cells)
+        return X.call(self.parser(), self.buf, **kw)
 
     def ensures(self, case, a, out, X):
         if out.kind != "return":
             yield "C04", "decodes-without-error (raised %s)" % type(out.exc).__name__, False
             return
         res = out.value
+        yield from buffer_untouched(self.buf, self.cells0)
         yield "C04", "result-is-dict", isinstance(res, dict)
         if not isinstance(res, dict):
             return
@@ -176,7 +191,8 @@ def build_fixed_units():
     for fmt in D.FIXED_VPD_PAGES:
         us.append(FixedDecode("Inquiry:vpd-%02X" % fmt.page_code, inq, fmt, kwargs={"evpd": 1}, fixed={"page_code": fmt.page_code}))
     us.append(FixedDecode("ReadCapacity10", lambda: cls_of("scsi_cdb_readcapacity10", "ReadCapacity10").unmarshall_datain, D.READ_CAPACITY_10))
-    us.append(FixedDecode("ReadCapacity16", lambda: cls_of("scsi_cdb_readcapacity16", "ReadCapacity16").unmarshall_datain, D.READ_CAPACITY_16))
+    # (READ CAPACITY(16) data has no length field: a smaller ALLOCATION LENGTH simply truncates it)
+    us.append(FixedDecode("ReadCapacity16", lambda: cls_of("scsi_cdb_readcapacity16", "ReadCapacity16").unmarshall_datain, D.READ_CAPACITY_16, short=[(12, {}), (16, {})]))
     rr = lambda: cls_of("scsi_cdb_persistentreservein", "PersistentReserveInReadReservation").unmarshall_datain
     us.append(FixedDecode("PRIn:ReadReservation", rr, D.PRIN_READ_RESERVATION))
     us.append(FixedDecode("PRIn:ReadReservation-none", rr, D.PRIN_READ_RESERVATION_NONE))
@@ -228,7 +244,8 @@ class ListDecode(Unit):
         if case.get("tail", "none") != "none":
             cells = list(cells) + list(a.tail)
         self.expected = expected
-        return X.call(self.parser(), mkbuf(X, cells), **self.kwargs(case))
+        self.buf, self.cells0 = mkbuf(X, cells), list(cells)
+        return X.call(self.parser(), self.buf, **self.kwargs(case))
 
     def tail_input(self, case, d):
         if case.get("tail", "none") != "none":
@@ -239,6 +256,7 @@ class ListDecode(Unit):
         if out.kind != "return":
             yield "C04", "decodes-without-error (raised %s: %s)" % (type(out.exc).__name__, str(out.exc)[:60] if not V.contains_sym(list(out.exc.args)) else ""), False
             return
+        yield from buffer_untouched(self.buf, self.cells0)
         for path, cond in V.deep_eq(self.project(out.value), self.expected):
             yield "C04", "decoded%s" % (path or "/"), cond
 
